@@ -265,16 +265,13 @@ func (w *World) dumpStacks() {
 }
 
 // singleAcceptLoopBlocked: the server application calls Server.Accept from one
-// goroutine, an authenticated hostile user has opened at least one session, and
-// Accept has failed at least once (its 10 s SOCKS-request read timed out).
+// goroutine and an authenticated hostile user has opened at least one session
+// (Accept then sits in its 10 s SOCKS-request read for that session).
 func (w *World) singleAcceptLoopBlocked() bool {
 	if w.Spec.Server.Acceptors > 1 || w.Spec.Attack == nil {
 		return false
 	}
-	w.mu.Lock()
-	errs := w.acceptErrs
-	w.mu.Unlock()
-	return errs > 0 && w.Tap.hostileSessionsOpened() > 0
+	return w.Tap.hostileSessionsOpened() > 0
 }
 
 // quotaChecks: C19 end to end. Per user, the server's upload/download counters
